@@ -655,6 +655,7 @@ static carquet_status_t parse_page_header_fread(
 
 static carquet_status_t load_dictionary_page_mmap(
     carquet_column_reader_t* reader,
+    int64_t dict_offset,
     carquet_error_t* error) {
 
     carquet_reader_t* file_reader = reader->file_reader;
@@ -662,7 +663,6 @@ static carquet_status_t load_dictionary_page_mmap(
     const parquet_column_metadata_t* col_meta = reader->col_meta;
 
     /* Parse page header directly from mmap */
-    int64_t dict_offset = col_meta->dictionary_page_offset;
     const uint8_t* header_ptr = mmap_data + dict_offset;
 
     parquet_page_header_t page_header;
@@ -747,6 +747,7 @@ static carquet_status_t load_dictionary_page_mmap(
 
 static carquet_status_t load_dictionary_page_fread(
     carquet_column_reader_t* reader,
+    int64_t dict_offset,
     carquet_error_t* error) {
 
     carquet_reader_t* file_reader = reader->file_reader;
@@ -754,7 +755,7 @@ static carquet_status_t load_dictionary_page_fread(
     const parquet_column_metadata_t* col_meta = reader->col_meta;
 
     /* Seek to dictionary page */
-    if (fseek(file, col_meta->dictionary_page_offset, SEEK_SET) != 0) {
+    if (fseek(file, (long)dict_offset, SEEK_SET) != 0) {
         CARQUET_SET_ERROR(error, CARQUET_ERROR_FILE_SEEK, "Failed to seek to dictionary");
         return CARQUET_ERROR_FILE_SEEK;
     }
@@ -763,7 +764,7 @@ static carquet_status_t load_dictionary_page_fread(
     parquet_page_header_t page_header;
     size_t header_size;
     carquet_status_t status = parse_page_header_fread(
-        file, col_meta->dictionary_page_offset, &page_header, &header_size, error);
+        file, dict_offset, &page_header, &header_size, error);
     if (status != CARQUET_OK) {
         return status;
     }
@@ -774,7 +775,7 @@ static carquet_status_t load_dictionary_page_fread(
     }
 
     /* Seek past header and read page data */
-    if (fseek(file, col_meta->dictionary_page_offset + (long)header_size, SEEK_SET) != 0) {
+    if (fseek(file, (long)dict_offset + (long)header_size, SEEK_SET) != 0) {
         CARQUET_SET_ERROR(error, CARQUET_ERROR_FILE_SEEK, "Failed to seek past dict header");
         return CARQUET_ERROR_FILE_SEEK;
     }
@@ -843,7 +844,7 @@ static carquet_status_t load_dictionary_page_fread(
      * dictionary-encoded columns. The reliable offset is always right
      * after the dictionary page: dict_offset + header + compressed data. */
     if (status == CARQUET_OK) {
-        reader->data_start_offset = col_meta->dictionary_page_offset +
+        reader->data_start_offset = dict_offset +
                                     (int64_t)header_size +
                                     page_header.compressed_page_size;
     }
@@ -871,8 +872,10 @@ static carquet_status_t load_next_page_mmap(
     const parquet_column_metadata_t* col_meta = reader->col_meta;
 
     /* Load dictionary if needed (may update data_start_offset) */
-    if (col_meta->has_dictionary_page_offset && !reader->has_dictionary) {
-        carquet_status_t status = load_dictionary_page_mmap(reader, error);
+    if (col_meta->has_dictionary_page_offset && col_meta->dictionary_page_offset > 0 &&
+        !reader->has_dictionary) {
+        carquet_status_t status = load_dictionary_page_mmap(
+            reader, col_meta->dictionary_page_offset, error);
         if (status != CARQUET_OK) {
             return status;
         }
@@ -888,6 +891,23 @@ static carquet_status_t load_next_page_mmap(
         file_reader, page_offset, &page_header, &header_size, error);
     if (status != CARQUET_OK) {
         return status;
+    }
+
+    /* Writers that omit dictionary_page_offset let data_page_offset point at the
+     * dictionary page, which then is the first page of the chunk. */
+    if (page_header.type == CARQUET_PAGE_DICTIONARY && !reader->has_dictionary &&
+        reader->current_page == 0) {
+        status = load_dictionary_page_mmap(reader, page_offset, error);
+        if (status != CARQUET_OK) {
+            return status;
+        }
+        page_offset = reader->data_start_offset + reader->current_page;
+        header_ptr = mmap_data + page_offset;
+        status = parse_page_header_mmap(
+            file_reader, page_offset, &page_header, &header_size, error);
+        if (status != CARQUET_OK) {
+            return status;
+        }
     }
 
     if (page_header.type != CARQUET_PAGE_DATA && page_header.type != CARQUET_PAGE_DATA_V2) {
@@ -1068,8 +1088,10 @@ static carquet_status_t load_next_page_fread(
     const parquet_column_metadata_t* col_meta = reader->col_meta;
 
     /* Load dictionary if needed (may update data_start_offset) */
-    if (col_meta->has_dictionary_page_offset && !reader->has_dictionary) {
-        carquet_status_t status = load_dictionary_page_fread(reader, error);
+    if (col_meta->has_dictionary_page_offset && col_meta->dictionary_page_offset > 0 &&
+        !reader->has_dictionary) {
+        carquet_status_t status = load_dictionary_page_fread(
+            reader, col_meta->dictionary_page_offset, error);
         if (status != CARQUET_OK) {
             return status;
         }
@@ -1089,6 +1111,22 @@ static carquet_status_t load_next_page_fread(
         file, data_offset + reader->current_page, &page_header, &header_size, error);
     if (status != CARQUET_OK) {
         return status;
+    }
+
+    /* Writers that omit dictionary_page_offset let data_page_offset point at the
+     * dictionary page, which then is the first page of the chunk. */
+    if (page_header.type == CARQUET_PAGE_DICTIONARY && !reader->has_dictionary &&
+        reader->current_page == 0) {
+        status = load_dictionary_page_fread(reader, data_offset, error);
+        if (status != CARQUET_OK) {
+            return status;
+        }
+        data_offset = reader->data_start_offset;
+        status = parse_page_header_fread(
+            file, data_offset + reader->current_page, &page_header, &header_size, error);
+        if (status != CARQUET_OK) {
+            return status;
+        }
     }
 
     if (page_header.type != CARQUET_PAGE_DATA && page_header.type != CARQUET_PAGE_DATA_V2) {
